@@ -13,6 +13,14 @@ package codon
 // tables are put back to 1 *through a table handed out by GetCodonTable* (which
 // works exactly when the defect is present and is a no-op otherwise), so each
 // reported history is a reproduction from a pristine process state.
+//
+// Because every history that re-weights a table handed out by GetCodonTable
+// stops at that known defect, the machine can also load a register with a
+// private deep copy of a default table (made by the harness, c08Copy). The
+// directed family of histories built on such copies re-weights the result of
+// add/compromise (in either operand order, including operands whose weights
+// are all 0) and looks at the operand kept in the other register: classes
+// sum-aliases-operand / compromise-aliases-operand.
 
 import (
 	"fmt"
@@ -297,6 +305,7 @@ const (
 	c08Add
 	c08Comp
 	c08Ser
+	c08GetPriv // the register receives a private deep copy (made by the harness) of GetCodonTable(id)
 )
 
 type c08Op struct {
@@ -305,6 +314,7 @@ type c08Op struct {
 	id   int
 	seq  int
 	cut  float64
+	swap bool // add/compromise: the other register is the FIRST operand (the result still goes to reg)
 }
 
 func (o c08Op) String(seqs []string) string {
@@ -312,15 +322,21 @@ func (o c08Op) String(seqs []string) string {
 	if o.reg == 1 {
 		r, other = "B", "A"
 	}
+	first, second := r, other
+	if o.swap {
+		first, second = other, r
+	}
 	switch o.kind {
 	case c08Get:
 		return fmt.Sprintf("%s=GetCodonTable(%d)", r, o.id)
+	case c08GetPriv:
+		return fmt.Sprintf("%s=deepcopy(GetCodonTable(%d))", r, o.id)
 	case c08Rw:
 		return fmt.Sprintf("%s=%s.OptimizeTable(%q)", r, r, c08Clip(seqs[o.seq]))
 	case c08Add:
-		return fmt.Sprintf("%s=AddCodonTable(%s,%s)", r, r, other)
+		return fmt.Sprintf("%s=AddCodonTable(%s,%s)", r, first, second)
 	case c08Comp:
-		return fmt.Sprintf("%s=CompromiseCodonTable(%s,%s,%g)", r, r, other, o.cut)
+		return fmt.Sprintf("%s=CompromiseCodonTable(%s,%s,%g)", r, first, second, o.cut)
 	}
 	return fmt.Sprintf("%s=ReadCodonJSON(WriteCodonJSON(%s))", r, r)
 }
@@ -393,7 +409,8 @@ func (mc *c08Machine) run(hist []c08Op) {
 	var real [2]Table
 	var model [2]c08M
 	model[0].empty, model[1].empty = true, true
-	origin := [2]int{-1, -1} // id of the default table a register was last fetched from (-1: computed value)
+	origin := [2]int{-1, -1} // id of the default table a register was last fetched from (-1: computed value or private copy)
+	madeBy := [2]int{-1, -1} // kind of the operation that produced the table a register holds (re-weighting keeps it)
 	describe := func(upto int) string {
 		var parts []string
 		for _, o := range hist[:upto+1] {
@@ -405,10 +422,14 @@ func (mc *c08Machine) run(hist []c08Op) {
 	defer func() { v.Case(describe(len(hist)-1), nontrivial) }()
 	for step, op := range hist {
 		r, o := op.reg, 1-op.reg
+		first, second := r, o // operand order of add/compromise
+		if op.swap {
+			first, second = o, r
+		}
 		skip := false
 		var want c08M
 		switch op.kind {
-		case c08Get:
+		case c08Get, c08GetPriv:
 			want = mc.prist[op.id]
 		case c08Rw:
 			if model[r].empty {
@@ -423,9 +444,9 @@ func (mc *c08Machine) run(hist []c08Op) {
 				skip = true
 				break
 			}
-			want = model[r]
+			want = model[first]
 			for i := range want.w {
-				want.w[i] += model[o].w[i]
+				want.w[i] += model[second].w[i]
 			}
 		case c08Comp:
 			if model[r].empty || model[o].empty || model[r].letter != model[o].letter || !c08AllPositive(model[r]) || !c08AllPositive(model[o]) {
@@ -442,13 +463,16 @@ func (mc *c08Machine) run(hist []c08Op) {
 			case c08Get:
 				real[r] = GetCodonTable(op.id)
 				origin[r] = op.id
+			case c08GetPriv:
+				real[r] = c08Copy(GetCodonTable(op.id))
+				origin[r] = -1
 			case c08Rw:
 				real[r] = real[r].OptimizeTable(mc.seqs[op.seq])
 			case c08Add:
-				real[r] = AddCodonTable(real[r], real[o])
+				real[r] = AddCodonTable(real[first], real[second])
 				origin[r] = -1
 			case c08Comp:
-				res, err := CompromiseCodonTable(real[r], real[o], op.cut)
+				res, err := CompromiseCodonTable(real[first], real[second], op.cut)
 				if err != nil {
 					panic("unexpected error: " + err.Error())
 				}
@@ -464,20 +488,23 @@ func (mc *c08Machine) run(hist []c08Op) {
 		if !ok {
 			return
 		}
+		if op.kind != c08Rw {
+			madeBy[r] = op.kind
+		}
 		got, problem := c08Norm(real[r])
 		if problem != "" {
 			v.Fail("result-not-a-code", describe(step), problem)
 			return
 		}
 		if op.kind == c08Comp {
-			if msg := c08CompromiseOK(model[r], model[o], got, op.cut); msg != "" {
+			if msg := c08CompromiseOK(model[first], model[second], got, op.cut); msg != "" {
 				v.Fail("result-depends-on-history", describe(step), "compromise of the model values of A and B: "+msg)
 				return
 			}
 			want = got // the statement leaves +-1 open; continue from the value returned
 		} else if got != want {
 			class := "result-depends-on-history"
-			if op.kind == c08Get {
+			if op.kind == c08Get || op.kind == c08GetPriv {
 				class = "default-table-mutated-by-reweighting"
 			}
 			v.Fail(class, describe(step), "result of the last call: "+c08Diff(got, want))
@@ -520,11 +547,21 @@ func (mc *c08Machine) run(hist []c08Op) {
 			if problem == "" {
 				problem = c08Diff(h, model[o])
 			}
-			v.Fail("earlier-result-changed-by-later-call", describe(step), "the other register: "+problem)
+			class := "earlier-result-changed-by-later-call"
+			if op.kind == c08Rw && madeBy[r] == c08Add {
+				class = "sum-aliases-operand" // re-weighting a table returned by AddCodonTable changed the other table
+			} else if op.kind == c08Rw && madeBy[r] == c08Comp {
+				class = "compromise-aliases-operand"
+			}
+			v.Fail(class, describe(step), "the other register: "+problem)
 			return
 		}
 	}
 }
+
+// c08DirectedCount: number of directed histories (3 id pairs, sA and sB absent
+// or one of nSeq, add/compromise, 2 target registers, 2 operand orders, nSeq sR).
+func c08DirectedCount(nSeq int) int { return 3 * (nSeq + 1) * (nSeq + 1) * 2 * 2 * 2 * nSeq }
 
 func TestVerifC08(t *testing.T) {
 	thorough := verifThorough()
@@ -661,7 +698,7 @@ func TestVerifC08(t *testing.T) {
 		}
 		skewed.WriteString(strings.Repeat(tr, n))
 	}
-	seqs := []string{"ATGATGATG", full.String(), skewed.String() + "NNAC", "atgGCCnnnTAAg", ""}
+	seqs := []string{"ATGATGATG", full.String(), skewed.String() + "NNAC", "atgGCCnnnTAAg", "", "AT"}
 	counts := make([][64]int, len(seqs))
 	for i, s := range seqs {
 		counts[i] = c08Count(s)
@@ -678,12 +715,15 @@ func TestVerifC08(t *testing.T) {
 		for _, id := range []int{1, 2, 4, 11, 12, 33} {
 			large = append(large, c08Op{kind: c08Get, reg: reg, id: id})
 		}
+		for _, id := range []int{1, 2, 4, 11, 12, 33} {
+			large = append(large, c08Op{kind: c08GetPriv, reg: reg, id: id})
+		}
 		for s := range seqs {
 			large = append(large, c08Op{kind: c08Rw, reg: reg, seq: s})
 		}
-		large = append(large, c08Op{kind: c08Add, reg: reg}, c08Op{kind: c08Ser, reg: reg})
+		large = append(large, c08Op{kind: c08Add, reg: reg}, c08Op{kind: c08Add, reg: reg, swap: true}, c08Op{kind: c08Ser, reg: reg})
 		for _, cut := range []float64{0, 0.1, 0.3} {
-			large = append(large, c08Op{kind: c08Comp, reg: reg, cut: cut})
+			large = append(large, c08Op{kind: c08Comp, reg: reg, cut: cut}, c08Op{kind: c08Comp, reg: reg, cut: cut, swap: true})
 		}
 	}
 	exhaustTo, sampled := 4, 4000
@@ -691,7 +731,7 @@ func TestVerifC08(t *testing.T) {
 		exhaustTo, sampled = 5, 250000
 	}
 	vH := newVerifRun("C08", "transform/codon.GetCodonTable/post/pristine-after-history",
-		fmt.Sprintf("two table registers A, B (initially empty); exhaustive: every operation sequence of length 1..%d over %d operations {A|B=GetCodonTable(1|11), A|B re-weighted with ATGATGATG | a sequence with every codon, A=AddCodonTable(A,B), A=CompromiseCodonTable(A,B,0.1), A=ReadCodonJSON(WriteCodonJSON(A))}; sampled: %d sequences of length 5..8 over %d operations (ids 1,2,4,11,12,33; 5 sequences incl. lower case, non-ACGT, length not divisible by 3, empty; add/compromise/serialise on either register; cut-offs 0, 0.1, 0.3); an operation whose precondition fails in the model (empty operand, different codes, an amino acid with total weight 0 for compromise) is left out; after every step: the result equals the model's result computed from the model's argument values, a freshly requested table for each of ids 1, 11, 3 (sampled: all six + 3) equals NCBI's code with weight 1 everywhere (ids other than the one the re-weighted register was fetched from are looked at first), the other register still equals its model value; each history starts from default weights put back to 1; a history stops at its first violation; non-trivial = at least one re-weighting executed", exhaustTo, len(small), sampled, len(large)))
+		fmt.Sprintf("two table registers A, B (initially empty); exhaustive: every operation sequence of length 1..%d over %d operations {A|B=GetCodonTable(1|11), A|B re-weighted with ATGATGATG | a sequence with every codon, A=AddCodonTable(A,B), A=CompromiseCodonTable(A,B,0.1), A=ReadCodonJSON(WriteCodonJSON(A))}; directed, exhaustive: %d histories of the shape A=deepcopy(GetCodonTable(i)) [; A re-weighted with sA]; B=deepcopy(GetCodonTable(j)) [; B re-weighted with sB]; R=AddCodonTable|CompromiseCodonTable(.,.,0.1) of A and B in either operand order, R stored in A or in B; R re-weighted with sR -- (i,j) in {(1,1),(11,11),(1,11)}, sA, sB each absent or one of the 6 sequences below, sR one of the 6 sequences (so the operands of add include tables whose weights are all 0: re-weighted with the empty sequence or with AT, shorter than one codon), deepcopy = a copy made by the harness so that the registers share no storage with the default tables or with one another; sampled: %d sequences of length 5..8 over %d operations (ids 1,2,4,11,12,33, as handed out or as private deep copies; 6 sequences incl. lower case, non-ACGT, length not divisible by 3, empty, shorter than one codon; add/compromise in either operand order and serialise on either register; cut-offs 0, 0.1, 0.3); an operation whose precondition fails in the model (empty operand, different codes, an amino acid with total weight 0 for compromise) is left out; after every step: the result equals the model's result computed from the model's argument values, a freshly requested table for each of ids 1, 11, 3 (sampled: all six + 3) equals NCBI's code with weight 1 everywhere (ids other than the one the re-weighted register was fetched from are looked at first), the other register still equals its model value (class sum-aliases-operand / compromise-aliases-operand when it is changed by re-weighting a table that add / compromise returned); each history starts from default weights put back to 1; a history stops at its first violation; non-trivial = at least one re-weighting executed", exhaustTo, len(small), c08DirectedCount(len(seqs)), sampled, len(large)))
 	mc := &c08Machine{v: vH, seqs: seqs, counts: counts, fresh: []int{1, 11, 3}, prist: prist, tmp: t.TempDir()}
 	hist := make([]c08Op, 0, 8)
 	var rec func(n int)
@@ -709,6 +749,39 @@ func TestVerifC08(t *testing.T) {
 	for n := 1; n <= exhaustTo; n++ {
 		rec(n)
 	}
+	// directed: re-weighting the result of add/compromise of two private tables
+	nDirected := 0
+	for _, ids := range [][2]int{{1, 1}, {11, 11}, {1, 11}} {
+		for sA := -1; sA < len(seqs); sA++ {
+			for sB := -1; sB < len(seqs); sB++ {
+				for _, comb := range []c08Op{{kind: c08Add}, {kind: c08Comp, cut: 0.1}} {
+					for reg := 0; reg < 2; reg++ {
+						for _, swap := range []bool{false, true} {
+							for sR := range seqs {
+								hist = hist[:0]
+								hist = append(hist, c08Op{kind: c08GetPriv, reg: 0, id: ids[0]})
+								if sA >= 0 {
+									hist = append(hist, c08Op{kind: c08Rw, reg: 0, seq: sA})
+								}
+								hist = append(hist, c08Op{kind: c08GetPriv, reg: 1, id: ids[1]})
+								if sB >= 0 {
+									hist = append(hist, c08Op{kind: c08Rw, reg: 1, seq: sB})
+								}
+								comb.reg, comb.swap = reg, swap
+								hist = append(hist, comb, c08Op{kind: c08Rw, reg: reg, seq: sR})
+								mc.run(hist)
+								nDirected++
+							}
+						}
+					}
+				}
+			}
+		}
+	}
+	if nDirected != c08DirectedCount(len(seqs)) {
+		t.Fatalf("harness: %d directed histories, domain text says %d", nDirected, c08DirectedCount(len(seqs)))
+	}
+	hist = hist[:0]
 	vH.Sampled() // lengths above exhaustTo are sampled
 	mc.fresh = []int{1, 2, 4, 11, 12, 33, 3}
 	for i := 0; i < sampled; i++ {
